@@ -2,8 +2,14 @@ package main
 
 import (
 	"bytes"
+	"context"
 	"errors"
+	"fmt"
 	"io"
+	"net"
+	"os"
+	"strings"
+	"syscall"
 	"time"
 
 	sse "github.com/tmaxmax/go-sse"
@@ -20,8 +26,53 @@ import (
 func init() { families["message"] = family{gen: genMessage, exec: execMessage} }
 
 type faultWriter struct {
-	script []val.V
-	acc    []byte
+	script   []val.V
+	acc      []byte
+	last     error // the value the writer returned last, to recognise it by identity
+	lastCode uint64
+	firstErr uint64 // the code of the first error returned (0: none yet)
+	after    int    // calls made after it
+}
+
+// faultErr builds the error of a scripted fault.  Codes below 100 are the harness's own opaque value; from 100 on
+// the value IS or wraps a sentinel that writers really return and that code inspecting errors may give a meaning to.
+// An encoder owes all of them the same treatment: the first error ends the write and is returned as it is.
+func faultErr(code uint64) error {
+	switch code {
+	case 100:
+		return io.ErrShortWrite
+	case 101:
+		return fmt.Errorf("sink: %w", io.ErrShortWrite)
+	case 102:
+		return io.EOF
+	case 103:
+		return io.ErrUnexpectedEOF
+	case 104:
+		return io.ErrClosedPipe
+	case 105:
+		return context.Canceled
+	case 106:
+		return os.ErrDeadlineExceeded
+	case 107:
+		return net.ErrClosed
+	case 108:
+		return &net.OpError{Op: "write", Net: "tcp", Err: syscall.EPIPE}
+	case 109:
+		return context.DeadlineExceeded
+	}
+	return codeErr{code}
+}
+
+// faultCode projects what WriteTo returned: the injected value itself (by identity) gives its code.
+func (w *faultWriter) code(err error) uint64 {
+	if err != nil && w.last != nil && err == w.last {
+		var ce codeErr
+		if errors.As(err, &ce) {
+			return ce.code
+		}
+		return w.lastCode
+	}
+	return errCode(err)
 }
 
 // byteFaultWriter additionally offers WriteByte and WriteString (like *bufio.Writer, *bytes.Buffer): an encoder that
@@ -35,6 +86,9 @@ func (w byteFaultWriter) WriteByte(c byte) error {
 func (w byteFaultWriter) WriteString(s string) (int, error) { return w.faultWriter.Write([]byte(s)) }
 
 func (w *faultWriter) Write(p []byte) (int, error) {
+	if w.firstErr != 0 {
+		w.after++
+	}
 	if len(w.script) == 0 {
 		w.acc = append(w.acc, p...)
 		return len(p), nil
@@ -47,7 +101,11 @@ func (w *faultWriter) Write(p []byte) (int, error) {
 			k = len(p)
 		}
 		w.acc = append(w.acc, p[:k]...)
-		return k, codeErr{v.At(1).Num()}
+		w.last, w.lastCode = faultErr(v.At(1).Num()), v.At(1).Num()
+		if w.firstErr == 0 {
+			w.firstErr = w.lastCode
+		}
+		return k, w.last
 	}
 	w.acc = append(w.acc, p...)
 	return len(p), nil
@@ -134,7 +192,7 @@ func execMessage(in val.V) val.V {
 					dst = byteFaultWriter{w} // a deterministic half of the cases: a writer with WriteByte/WriteString
 				}
 				n, err := m.WriteTo(dst)
-				return val.L(val.N(uint64(n)), val.N(errCode(err)), val.B(w.acc))
+				return val.L(val.N(uint64(n)), val.N(w.code(err)), val.B(w.acc), val.L(val.N(w.firstErr), val.Int(w.after)))
 			case 6:
 				b, _ := m.MarshalText()
 				nm := &sse.Message{}
@@ -216,7 +274,11 @@ func genMessageOp(r *rng.R, famSize *int, wireLenHint int) val.V {
 		for i := 0; i < ncalls; i++ {
 			script[i] = val.L()
 		}
-		script[ncalls] = val.L(val.Int(r.Intn(8)), val.N(uint64(1+r.Intn(9))))
+		code := uint64(1 + r.Intn(9))
+		if r.Intn(3) == 0 {
+			code = uint64(100 + r.Intn(10)) // an error character (see faultErr)
+		}
+		script[ncalls] = val.L(val.Int(r.Intn(8)), val.N(code))
 		if r.Intn(5) == 0 {
 			script = script[:ncalls]
 		}
@@ -230,7 +292,10 @@ func genMessageOp(r *rng.R, famSize *int, wireLenHint int) val.V {
 	}
 }
 
-var wirePieces = []string{"data: a\n", "data:b\n", "data\n", "id: 1\n", "id\n", "id: a\x00b\n", "event: e\n", "retry: 12\n", "retry: \n", "retry: 1x\n", "retry: 99999999999999999999\n", "retry: 9223372036854775807\n", ": c\n", ":\n", "\n", "\r", "\r\n", "x: y\n", "data: tail", "\xef\xbb\xbf", "datax: 1\n", " data: 1\n", "data: é\r"}
+// lines beyond 64 bytes (where byte loops give way to vectorised searches), after short lines ended each way
+var longX, longC = strings.Repeat("x", 80), strings.Repeat("c", 300)
+
+var wirePieces = []string{"id: a\r", "event: b\r\n", "id: i\r\n", "data: " + longX + "\n", ": " + longC + "\r\n", "data: " + longX + "\r", "data: a\n", "data:b\n", "data\n", "id: 1\n", "id\n", "id: a\x00b\n", "event: e\n", "retry: 12\n", "retry: \n", "retry: 1x\n", "retry: 99999999999999999999\n", "retry: 9223372036854775807\n", ": c\n", ":\n", "\n", "\r", "\r\n", "x: y\n", "data: tail", "\xef\xbb\xbf", "datax: 1\n", " data: 1\n", "data: é\r"}
 
 func genWire(r *rng.R) string {
 	n := r.Intn(7)
@@ -261,6 +326,35 @@ func genMessage(c *Ctx) {
 				ops := append(append([]val.V{}, b...), val.L(val.N(5), val.N(0), val.List(script)), val.L(val.N(6), val.N(0)))
 				c.Count("exhaustive-write-faults")
 				c.Emit(val.List(ops))
+			}
+		}
+	}
+	// every error character at every call index of a message with every kind of line, part of the call accepted
+	for code := uint64(100); code < 110; code++ {
+		for call := 0; call < 14; call++ {
+			for _, k := range []int{0, 1, 3} {
+				script := make([]val.V, call+1)
+				for i := 0; i < call; i++ {
+					script[i] = val.L()
+				}
+				script[call] = val.L(val.Int(k), val.N(code))
+				ops := append(append([]val.V{}, base[1]...), val.L(val.N(5), val.N(0), val.List(script)), val.L(val.N(6), val.N(0)))
+				c.Count("write-fault-characters")
+				c.Emit(val.List(ops))
+			}
+		}
+	}
+	// UnmarshalText of three lines ended each way (LF, CR, CRLF), the last one short, beyond 64 and beyond 256 bytes
+	for _, t1 := range []string{"\n", "\r", "\r\n"} {
+		for _, t2 := range []string{"\n", "\r", "\r\n"} {
+			for _, t3 := range []string{"\n", "\r", "\r\n"} {
+				for _, n := range []int{4, 80, 300} {
+					for _, first := range []string{"id: a", "event: b", "data: d", ": c"} {
+						text := first + t1 + "event: e" + t2 + "data: " + strings.Repeat("x", n) + t3 + "\n"
+						c.Count("directed:mixed-line-ends-long-input")
+						c.Emit(val.L(val.L(val.N(7), val.S(text))))
+					}
+				}
 			}
 		}
 	}
